@@ -40,6 +40,9 @@ def session_events(tid, db, table, colname, tddapath, rex, perturb_rows, events,
     except BaseException as ex:
         ev('Verify', failed=[], raised='%s: %s' % (type(ex).__name__, str(ex)[:160]))
         return fields
+    if callable(perturb_rows):
+        perturb_rows = perturb_rows(fields)
+        detail['perturbation'] = perturb_rows[:1]
     for kind, val in perturb_rows[:1]:
         try:
             cur = db.connection.cursor()
@@ -172,7 +175,21 @@ def run(chk):
                 pert = [('min', -1e301)] if any(v is not None for v in vals) else []
             dbl.make_table(db, 't', colname, sqltype, vals)
             rex = kind in ('text', 'allnull', 'empty') and rnd.random() < 0.6
-            d = {'values': vals, 'sqltype': sqltype, 'colname': colname, 'rex': rex, 'perturbation': pert[:1], 'rich': kind}
+            if rex and rnd.random() < 0.6:
+                # "a string no expression matches": chosen after discovery, against the discovered expressions
+                def pert(fields, colname=colname):
+                    import re
+                    rexes = (fields.get(colname) or {}).get('rex')
+                    if rexes is None:
+                        return []
+                    for cand in ('@@@ 12345 !!!', 'ZZZZZZZZZZZZZZZZZZZZZZZZZQ', 'é9é9é9é9é9', '\t\t'):
+                        try:
+                            if not any(re.fullmatch(r.lstrip('^').rstrip('$') if False else r, cand) for r in rexes):
+                                return [('rex', cand)]
+                        except re.error:
+                            return []
+                    return []
+            d = {'values': vals, 'sqltype': sqltype, 'colname': colname, 'rex': rex, 'perturbation': ('chosen after discovery' if callable(pert) else pert[:1]), 'rich': kind}
             session_events(tid, db, 't', colname, os.path.join(root, 'r%d.tdda' % tid), rex, pert, events, d)
             detail[tid] = d
         finally:
